@@ -161,8 +161,9 @@ def check(col, prog, tier, profile, fixture=None):
     # ---------------- T3 reading walks
     for nm, fld in (("first", R.LEFT), ("last", R.RIGHT)):
         b = util.need_body(crate, "Treap::<T>::%s" % nm)
-        I = R.A(b)
-        backs = [s for l in I.backedge_states.values() for s in l]
+        # a walk shared by first/last through a private helper taking the child selector as a closure
+        I = util.analyser(R.helpers, features=("fncall",))(b)
+        backs = [s for l in I.backedge_states.values() for s in l] + list(I.inl_back)
         if not backs:
             col.violation("T3" + sfx, "%s|loop" % fk(b), b.loc(), "%s: no descent loop found" % b.path)
         for st in backs:
